@@ -577,6 +577,19 @@ def build_misc(d):
         o <<= pyrtl.concat(*ins)
         o2 = pyrtl.Output(3, 'o2')
         o2 <<= pyrtl.concat(*ins)[1:4] if sum(ws) >= 4 else pyrtl.concat(*ins)[0:1]
+    elif k == 'const_folds':
+        # several all-constant nets of DIFFERENT widths that fold to the same number, with width-sensitive consumers
+        x = pyrtl.Input(2, 'x')
+        z1 = pyrtl.Const(0, bitwidth=1) & pyrtl.Const(1, bitwidth=1)          # 1 bit, value 0
+        z2 = pyrtl.Const(2, bitwidth=2) & pyrtl.Const(1, bitwidth=2)          # 2 bits, value 0
+        one3 = pyrtl.Const(5, bitwidth=3) ^ pyrtl.Const(4, bitwidth=3)        # 3 bits, value 1
+        one1 = pyrtl.Const(1, bitwidth=1) | pyrtl.Const(0, bitwidth=1)        # 1 bit, value 1
+        o = pyrtl.Output(5, 'o')
+        o <<= pyrtl.concat(x, z2, z1)
+        o2 = pyrtl.Output(6, 'o2')
+        o2 <<= pyrtl.concat(one1, x, one3)
+        o3 = pyrtl.Output(4, 'o3')
+        o3 <<= pyrtl.concat(z1, x, one1)
     elif k == 'mem_const_addr':
         # a read port whose address is a constant while another port writes the memory (the read is not a constant)
         m = pyrtl.MemBlock(bitwidth=w, addrwidth=2, name='m', asynchronous=True)
@@ -631,6 +644,7 @@ def misc_cases():
     for rv, cv in ((None, 0), (None, 1), (1, 1), (0, 1), (1, 0)):
         out.append({'fam': 'MISC', 'kind': 'const_reg_bit', 'rv': rv, 'cv': cv})
         out.append({'fam': 'MISC', 'kind': 'const_reg', 'w': 3, 'rv': None if rv is None else rv * 5, 'cv': cv * 5})
+    out.append({'fam': 'MISC', 'kind': 'const_folds'})
     for k in ('mem_const_addr', 'mem_clear_port', 'mem_tied_enable'):
         out.append({'fam': 'MISC', 'kind': k, 'w': 3})
     out.append({'fam': 'MISC', 'kind': 'rom_sparse_pad'})
